@@ -163,6 +163,9 @@ struct Cfg {
     /// the lower adapter may be in the middle of an input item (one of two
     /// diffs handed out, the other one parked) when the next stage is built on it.
     stack_mid_item: bool,
+    /// Statically limited Head/Tail/Skip are kept as adapter values too (so that
+    /// they can be handed on through `into_parts` after they were polled).
+    static_value: bool,
     /// Run the same chain on the plain flavour next to the batched one and
     /// compare the flattened outputs (C13).
     twin: bool,
